@@ -197,14 +197,34 @@ def install(E):
         if a[0].c is not None and a[1].c is not None: return mkslice([StrV(c=x) for x in a[0].c.split(a[1].c)])
         raise Unsupported('strings.Split symbolic')
     I['strings.Split'] = split
-    def conc2(f):
+    def head_lit(e, s):
+        """(literal head, has symbolic rest) of a string value"""
+        if s.c is not None: return s.c, False
+        t = s.t
+        if is_app_of(t, 'sconcat'):
+            h = e.tostr(t.arg(0))
+            if h.c is not None: return h.c, True
+        return '', True
+    def conc2(f, sym=None):
         def g(e, a):
             if a[0].c is not None and a[1].c is not None: return f(a[0].c, a[1].c)
+            if sym is not None and a[1].c is not None:
+                r = sym(e, a[0], a[1].c)
+                if r is not None: return r
             raise Unsupported('string search on symbolic text')
         return g
-    I['strings.HasPrefix'] = conc2(lambda s, p: s.startswith(p))
+    def sym_prefix(e, s, p):
+        h, rest = head_lit(e, s)
+        if len(p) <= len(h): return h.startswith(p)
+        if not h.startswith(p[:len(h)]): return False
+        return None
+    def sym_index(e, s, p):
+        h, rest = head_lit(e, s)
+        i = h.find(p)
+        return i if i >= 0 else None
+    I['strings.HasPrefix'] = conc2(lambda s, p: s.startswith(p), sym_prefix)
     I['strings.HasSuffix'] = conc2(lambda s, p: s.endswith(p))
-    I['strings.Index'] = conc2(lambda s, p: s.find(p) & ((1 << 64) - 1))
+    I['strings.Index'] = conc2(lambda s, p: s.find(p) & ((1 << 64) - 1), sym_index)
 
     # ------------------------------------------------------------ bytes.Buffer / binary
     E.ext_zero['bytes.Buffer'] = lambda e: Opaque('buf', StrV(c=''))
